@@ -14,6 +14,7 @@ never walks backwards.
 """
 import os, time
 import vlib
+import contlib
 from contlib import split_ab
 
 FAMILY = 'cont_dlinked_list'
@@ -33,7 +34,10 @@ def _first_diff(m, i):
 def run(chk, ctx, cases):
     cases = [c for c in cases if c.split(' ')[1:2] == [CLASS]]
     cov = ctx['cov'].setdefault('class_model_runs', {}).setdefault(CLASS, {})
+    ntotal = len(cases)
+    cases = [c for c in cases if contlib.tie_affordable(c)]
     cov['histories'] = len(cases)
+    cov['too_large_for_the_pointer_level_model'] = ntotal - len(cases)
     if not cases:
         return []
     t0 = time.time()
@@ -55,7 +59,7 @@ def run(chk, ctx, cases):
         for c in cases:
             f.write(c + '\n')
     try:
-        mouts, minfo = vlib.run_model(exe, path, len(cases))
+        mouts = contlib.run_model_sliced(exe, cases, work, FAMILY)
         iouts, det = vlib.run_cases(ctx['impl_exe'], path, len(cases), env={'LV_CONT_B': '1'},
                                     timeout_per_run=getattr(chk, 'case_timeout', 600))
     finally:
